@@ -64,3 +64,16 @@ fn dev_d5_send_one_concrete() {
     let _ = block_on(res.send(&mut sink));
     assert!(sink.writes == 3);
 }
+
+#[kani::proof] #[kani::unwind(40)] #[kani::stub(crate::util::unix_timestamp, stub_ts)]
+fn dev_d6_send_none_empty_headers() { let r = Response { status: Status::OK, headers: super::headers::__verif_devh::empty_headers(), content: Content::None }; let mut sink = Sink { head_len: 0, writes: 0, buf: [0; 96], len: 0 }; let _ = block_on(r.send(&mut sink)); assert!(sink.writes == 1); }
+#[kani::proof] #[kani::unwind(40)] #[kani::stub(crate::util::unix_timestamp, stub_ts)]
+fn dev_d7_write_only() { let r = Response::new(Status::OK); let mut buf = Vec::with_capacity(128); r.headers._write_to(&mut buf); assert!(buf.len() == r.headers.size); std::mem::forget(r); }
+#[kani::proof] #[kani::unwind(40)] #[kani::stub(crate::util::unix_timestamp, stub_ts)]
+fn dev_d8_send_stream_empty_headers() {
+    let script = Script { msgs: [Some(String::from("ab")), None], next: 0 };
+    let res = Response { status: Status::OK, headers: super::headers::__verif_devh::empty_headers(), content: Content::Stream(Box::pin(script)) };
+    let mut sink = Sink { head_len: 0, writes: 0, buf: [0; 96], len: 0 };
+    let _ = block_on(res.send(&mut sink));
+    assert!(sink.writes == 3);
+}
